@@ -4,6 +4,7 @@ import (
 	"fmt"
 	"go/types"
 	"os"
+	"sync"
 	"path/filepath"
 	"regexp"
 	"sort"
@@ -17,6 +18,11 @@ import (
 type specFunc struct {
 	args []string
 	ret  string
+	// opaque definitions: declared uninterpreted in the prelude; the defining
+	// equation is asserted as a ground instance wherever a contract mentions
+	// an application (one level, no macro blow-up)
+	params []string
+	body   string
 }
 
 type SpecPrelude struct {
@@ -38,6 +44,8 @@ type Program struct {
 	modsets map[*ssa.Function]*ModSet
 	namedTypes []types.Type
 	sigIndex map[string][]*ssa.Function
+	mu       sync.Mutex
+	msMu     sync.Mutex
 }
 
 func loadProgram(repo string, patterns []string) (*Program, error) {
@@ -95,6 +103,8 @@ func (p *Program) pkgByPath(path string) *types.Package {
 // globalRef gives each package-level variable a fixed negative-free reference
 // (1..n are reserved for globals; the entry allocation counter starts above).
 func (p *Program) globalRef(ex *Exec, v *types.Var) Term {
+	p.mu.Lock()
+	defer p.mu.Unlock()
 	n, ok := p.globals[v]
 	if !ok {
 		n = len(p.globals) + 1
@@ -118,7 +128,11 @@ func (sp *SpecPrelude) load(path string) error {
 	}
 	// strip comments
 	var lines []string
+	opaque := map[string]bool{}
 	for _, l := range strings.Split(string(data), "\n") {
+		if i := strings.Index(l, "; @opaque "); i >= 0 {
+			opaque[strings.TrimSpace(l[i+len("; @opaque "):])] = true
+		}
 		if i := strings.Index(l, ";"); i >= 0 {
 			l = l[:i]
 		}
@@ -171,7 +185,18 @@ func (sp *SpecPrelude) load(path string) error {
 						as = append(as, ap[1])
 					}
 				}
-				sp.funcs[parts[1]] = specFunc{args: as, ret: parts[3]}
+				sf := specFunc{args: as, ret: parts[3]}
+				if m[1] == "define-fun" && opaque[parts[1]] && len(parts) >= 5 {
+					for _, a := range splitSexprs(argl[1 : len(argl)-1]) {
+						ap := splitSexprs(a[1 : len(a)-1])
+						sf.params = append(sf.params, ap[0])
+					}
+					sf.body = parts[4]
+					sp.funcs[parts[1]] = sf
+					sp.text = append(sp.text, fmt.Sprintf("(declare-fun %s (%s) %s)", parts[1], strings.Join(as, " "), parts[3]))
+					continue
+				}
+				sp.funcs[parts[1]] = sf
 			}
 		}
 		sp.text = append(sp.text, f)
